@@ -107,6 +107,15 @@ CLAIMED = {
         design_ref="DESIGN.md section 6 C10",
         note="Trusted: TLC; moby/patternmatcher for single-pattern glob semantics; bounded pattern sub-language and seeded random cases.",
         technique="TLA+ reference filter (FilterRef) + TLC trace validation of real filtered walks with a library-derived hit matrix"),
+    "C11": dict(
+        text="Real Send over stacks of one or two NewFilterFS layers (include, exclude, follow-paths) on trees whose hard-link groups straddle the "
+             "filter, into real Receive: TLC checks that the STAT log is accepted by ValidStream, that every link names an entry sent earlier as "
+             "a plain file, the hard-link reset rule against the source's inode groups (first reported member plain with full bytes, later "
+             "ones link to it), that both calls succeed and the destination converges to the view, and that Open through the same view succeeds "
+             "with the right bytes exactly for the reported regular files.",
+        design_ref="DESIGN.md section 6 C11",
+        note=_SYNC_NOTE + " moby/patternmatcher is trusted for pattern verdicts; its incremental/plain disagreement is the listed known finding.",
+        technique="TLA+ property layer (ValidStream, SyncOutcome, C11 clauses of SyncTrace) + TLC trace validation of real filtered transfers and Open probes"),
     "C12": dict(
         text="TLC proves, for every change sequence up to the bound over a hostile path alphabet, that the transcribed Validator "
              "(alg) accepts exactly what the property-layer ValidStream accepts and rejects at the same index, and that the "
